@@ -142,11 +142,16 @@ def composed_cases(tier):
     for i, c in enumerate(paired):
         yield dict(g=5, parts=[c, c], reverse=False, labelmode=2)
         yield dict(g=5, parts=[c, paired[(i + 5) % len(paired)], c], reverse=bool(i % 2), labelmode=1 + i % 2)
+    # chains named B, AA, A-2 (in this file order): residues are ordered by chain NAME as a string ("A-2" < "AA" < "B")
+    for i, c in enumerate(paired[:8]):
+        yield dict(g=5, parts=[c, paired[(i + 2) % len(paired)], c], reverse=bool(i % 2), labelmode=0, chainmode=1)
+        yield dict(g=5, parts=[c, paired[(i + 2) % len(paired)], paired[(i + 4) % len(paired)]], reverse=bool(i % 2), labelmode=0, chainmode=2)
     # stacked and paired placements as assembly copies / under reversed label order
     stacked = [c for k, c in enumerate(g1_stack("quick")) if k % 1499 == 0][:8]
     for i, c in enumerate(stacked):
         for lm in (1, 2):
             yield dict(g=5, parts=[c, stacked[(i + 3) % len(stacked)], c], reverse=bool(i % 2), labelmode=lm)
+        yield dict(g=5, parts=[c, stacked[(i + 3) % len(stacked)], c], reverse=bool(i % 2), labelmode=0, chainmode=2)
 
 
 def structure_of(case):
@@ -156,8 +161,14 @@ def structure_of(case):
         n = len(case["parts"])
         for k, part in enumerate(case["parts"]):
             off = np.array([0.0, 60.0 * k, 25.0 * k])
-            for (_, num, ic, rn, letter, atoms) in specs_of(dict(part, idmode=0, namemode=0, thinmode=0)):
+            for j, (_, num, ic, rn, letter, atoms) in enumerate(specs_of(dict(part, idmode=0, namemode=0, thinmode=0))):
                 chain = "ABCDEF"[k]
+                if case.get("chainmode") == 2:
+                    # the two residues of a placement sit in DIFFERENT chains whose names differ in length: the first in B (b, C), the second in AA (AB, A-2)
+                    chain = [["B", "AA"], ["b", "AB"], ["C", "A-2"]][k % 3][j % 2]
+                elif case.get("chainmode"):
+                    # chain names of different lengths whose plain string order is not their order by length (B < b? no: "AA" < "B", "A-2" < "B")
+                    chain = ["B", "AA", "A-2", "b", "AB"][k]
                 label = None
                 if lm == 1:
                     # label ids that order the residues the other way round than the author ids do (label chains C, B, A; label numbers descending)
